@@ -26,9 +26,9 @@ def validate_decoder_trace(rep, trace, name, only_panics=False):
     n, bad, dt = tlc_trace("DecoderTrace.tla", "DecoderTrace.cfg", trace, name)
     if bad:
         events = read_trace(trace)
-        for idx in bad:
+        for idx, code in bad:
             e = events[idx - 1]
-            if only_panics and e["res"][0] != "Panic":
+            if only_panics and not (code & 4):
                 continue
             s, hist = history_of(events, idx)
             rep.violation(decoder_key(e), {
